@@ -136,6 +136,17 @@ func (m *VerifManager) Get(host string) int {
 	defer m.bm.mu.Unlock()
 	return len(m.bm.buckets)
 }
+// Report goes through the manager's public entry points for the outcome of a request (they look the host's bucket up again)
+func (m *VerifManager) Report(host string, code int) int {
+	if code == 0 {
+		m.bm.OnSuccess(host)
+	} else {
+		m.bm.AdjustOnFailure(host, code)
+	}
+	m.bm.mu.Lock()
+	defer m.bm.mu.Unlock()
+	return len(m.bm.buckets)
+}
 func (m *VerifManager) Hosts() map[string]int {
 	m.bm.mu.Lock()
 	defer m.bm.mu.Unlock()
